@@ -27,6 +27,41 @@ def clades_of(tree):
     return sorted(out)
 
 
+def structured(labels, rng, kind=None):
+    """a caterpillar, a balanced tree or a star over the labels, as nested tuples"""
+    if len(labels) == 1:
+        return labels[0]
+    kind = kind or rng.choice(["cat", "cat", "bal", "star"])
+    if kind == "cat":
+        t = labels[0]
+        for x in labels[1:]:
+            t = (x, t)
+        return t
+    if kind == "star" and len(labels) >= 3:
+        return tuple(labels)
+    h = len(labels) // 2
+    return (structured(labels[:h], rng), structured(labels[h:], rng))
+
+
+def nested_tree(nested, n):
+    tables = tskit.TableCollection(1)
+    for _ in range(n):
+        tables.nodes.add_row(flags=tskit.NODE_IS_SAMPLE, time=0)
+
+    def build(x):
+        if isinstance(x, int):
+            return x, 0
+        kids = [build(c) for c in x]
+        t = max(tt for _, tt in kids) + 1
+        u = tables.nodes.add_row(time=t)
+        for c, _ in kids:
+            tables.edges.add_row(0, 1, u, c)
+        return u, t
+    build(nested)
+    tables.sort()
+    return tables.tree_sequence().first()
+
+
 def perturb(tree, rng):
     """same topology: internal nodes renumbered, branch lengths changed, edge rows permuted within parents' time order"""
     ts = tree.tree_sequence
@@ -169,6 +204,61 @@ def run():
                 chk.violation("rank/unrank round trip fails for n=%d rank=%s" % (n, r), dict(n=n, rank=[str(x) for x in r]))
             else:
                 big_ok += 1
+    # large trees with polytomies whose children fall into several shape groups (labelling products beyond 2^63)
+    big_poly = 0
+    import signal
+    import time as _time
+
+    class Slow(Exception):
+        pass
+
+    def _alarm(*_a):
+        raise Slow()
+    big_skipped = 0
+    t_start = _time.time()
+    for n in ((21, 22, 23) if QUICK else (18, 20, 21, 22, 23, 24, 26)):
+        for _ in range(6 if QUICK else 20):
+            if _time.time() - t_start > (40 if QUICK else 900):      # unranking some shapes of this size takes minutes: bounded effort
+                big_skipped += 1
+                continue
+            labels = list(range(n))
+            rng.shuffle(labels)
+            k = rng.randint(3, 4)
+            cuts = sorted(rng.sample(range(1, n), k - 1))
+            groups = [labels[i:j] for i, j in zip([0] + cuts, cuts + [n])]
+            nested = tuple(structured(g, rng) for g in groups)
+            if _ % 3 == 0:      # always present: a leaf and two long caterpillars of different length under one trifurcation
+                m = (n - 1) // 2 - 1
+                nested = (labels[0], structured(labels[1:1 + m], rng, "cat"), structured(labels[1 + m:], rng, "cat"))
+            t = nested_tree(nested, n)
+            old = signal.signal(signal.SIGALRM, _alarm)
+            signal.setitimer(signal.ITIMER_REAL, 8 if QUICK else 60)
+            try:
+                r = t.rank()
+                try:
+                    t2 = tskit.Tree.unrank(n, r)
+                    ok = t2.rank() == r and clades_of(t2) == clades_of(t)
+                    NL = tskit.combinatorics.num_labellings(n, r.shape)
+                    for lab in (0, 1, NL // 3, NL // 2, NL - 1):
+                        if 0 <= lab < NL:
+                            ok = ok and tuple(tskit.Tree.unrank(n, (r.shape, lab)).rank()) == (r.shape, lab)
+                except ValueError as e:
+                    ok = False
+            except Slow:
+                big_skipped += 1
+                continue
+            finally:
+                signal.setitimer(signal.ITIMER_REAL, 0)
+                signal.signal(signal.SIGALRM, old)
+            chk.note_case(dict(big_poly=[n, str(r)]), True)
+            if not ok:
+                chk.violation("rank/unrank round trip fails for a %d-leaf tree with a polytomy over several shape groups, rank=%s" % (n, r),
+                              dict(n=n, nested=repr(nested), rank=[str(x) for x in r]))
+            else:
+                big_poly += 1
+                chk.traces += 1
+    chk.extra["big_polytomy_roundtrips"] = big_poly
+    chk.extra["big_polytomy_skipped_as_too_slow"] = big_skipped
     corrupted = []
     d = copy.deepcopy(cases[3])
     d["rows"][1], d["rows"][2] = d["rows"][2], d["rows"][1]
